@@ -123,6 +123,24 @@ def names_for_heck(rng, n):
     return uniq
 
 
+def build_failure_inputs(types, text):
+    """(tid, first error line) for the type modules the compiler errors point at"""
+    import re
+    out, seen = [], set()
+    for block in re.split(r"\n(?=error)", text):
+        if not block.startswith("error"):
+            continue
+        m = re.search(r"\bt(\d+)\b", block)
+        if m and int(m.group(1)) in types_index(types) and int(m.group(1)) not in seen:
+            seen.add(int(m.group(1)))
+            out.append((int(m.group(1)), " ".join(block.splitlines()[:6])[:600]))
+    return out
+
+
+def types_index(types):
+    return set(types.keys()) if isinstance(types, dict) else set(range(len(types)))
+
+
 def write_violation(ctx, types, tid, value, impl, model, verdict, kind):
     cl = G.closure(types, tid)
     ctx.violation({"kind": kind, "query": [tid, value], "types": {str(k): types[k] for k in cl},
@@ -176,10 +194,17 @@ def run(ctx):
         impl, mod, flags = execute(ctx, types, queries)
     except (G.BuildFailed, vlib.BuildError) as e:
         ctx.log("BUILD FAILED:\n" + str(e)[-3000:])
-        ctx.violation({"kind": "build-failure", "detail": str(e)[-6000:],
-                       "theorem_or_correspondence": "generated crate (harness_c19/src/main.rs, kept on disk) or the model does "
-                                                    "not build against /repo; the generator only writes programs the model accepts"},
-                      no_input=True)
+        # a generated program mentions the documented names (enum_def enum and variant identifiers); if rustc rejects
+        # it, the type definitions the errors point at are failing inputs
+        bad = build_failure_inputs(types, str(e)) if isinstance(e, G.BuildFailed) else []
+        for tid, msg in bad[:3]:
+            v = G.type_values(types, tid, ctx.rng)[0]
+            write_violation(ctx, types, tid, v, "DOES-NOT-COMPILE", "-",
+                            "the program that uses the documented names does not compile: " + msg, "oracle-failure")
+        if not bad:
+            ctx.violation({"kind": "build-failure", "detail": str(e)[-6000:],
+                           "theorem_or_correspondence": "generated crate (harness_c19/src/main.rs, kept on disk) or the model "
+                                                        "does not build against /repo"}, no_input=True)
         return ctx.finish()
     ctx.log("crate built and run in %.1fs" % (time.time() - t0))
 
@@ -304,7 +329,9 @@ def replay(path):
     try:
         impl, mod, flags = execute(ctx, types, [(tid, value)], "replay")
     except (G.BuildFailed, vlib.BuildError) as e:
-        print("build failed:\n" + str(e)[-3000:])
+        print("program:\n" + "\n".join(G.rust_typedef(types, types[k]) for k in G.closure(types, tid)))
+        print("value  :", G.rust_value(types, tid, value))
+        print("oracle: the program that uses the documented names does not compile:\n" + str(e)[-3000:])
         return 1
     print("program:\n" + "\n".join(G.rust_typedef(types, types[k]) for k in G.closure(types, tid)))
     print("value  :", G.rust_value(types, tid, value))
